@@ -195,8 +195,11 @@ func asPathValue(r *rand.Rand) []byte {
 	var b []byte
 	for s := 1 + r.IntN(6); s > 0; s-- {
 		n := 1 + r.IntN(5)
-		if r.IntN(20) == 0 {
+		switch r.IntN(20) {
+		case 0:
 			n = 255
+		case 1:
+			n = 0 // a segment without AS numbers, in any position
 		}
 		b = append(b, byte(1+r.IntN(2)), byte(n))
 		for i := 0; i < 4*n; i++ {
